@@ -61,6 +61,18 @@ type world struct {
 	cacheObjs  int64 // objects fingerprinted by M-CACHE
 	syncs      int64
 	noMonitors bool
+	// ownSig lets a scenario that manipulates ownership itself refine the signature of an M-OWN
+	// finding (e.g. to mark the known stale-observation shape).
+	ownSig func(f sim.Finding) string
+	// caseID is the case id used in reports (defaults to cfg.ID)
+	caseID string
+}
+
+func (w *world) reportID() string {
+	if w.caseID != "" {
+		return w.caseID
+	}
+	return w.cfg.ID
 }
 
 var worldSeq int64
@@ -296,7 +308,7 @@ func (w *world) syncKey(key string) *syncResult {
 	if panicked {
 		res.Panic = stack
 		res.Err = fmt.Errorf("panic: %s", strings.SplitN(stack, "\n", 2)[0])
-		sim.R().Violation("C13", w.cfg.ID, "panic:"+sim.PanicSite(stack), "sync panicked (a worker panic terminates the whole process): "+stack,
+		sim.R().Violation("C13", w.reportID(), "panic:"+sim.PanicSite(stack), "sync panicked (a worker panic terminates the whole process): "+stack,
 			map[string]interface{}{"key": key, "hooks": describeHooks(res.Hooks), "requests": sim.DescribeLog(res.Requests, false)})
 	}
 	res.QueueOps = w.q.Since(qmark)
@@ -306,14 +318,17 @@ func (w *world) syncKey(key string) *syncResult {
 		atomic.AddInt64(&w.cacheObjs, int64(len(before)))
 		for _, d := range env.CompareCaches(before, after) {
 			res := strings.SplitN(d, "|", 2)[0]
-			sim.R().Violation("C17", w.cfg.ID, "cache-mutated:"+res, "an object in a shared informer cache changed during a sync although its resourceVersion did not (mutated in place):\n"+d,
+			sim.R().Violation("C17", w.reportID(), "cache-mutated:"+res, "an object in a shared informer cache changed during a sync although its resourceVersion did not (mutated in place):\n"+d,
 				map[string]interface{}{"key": key})
 		}
 		if res.Cached != nil {
 			parentObj := sim.Obj(res.Cached.Object)
 			ctx := sim.OwnCtx{ParentGVR: w.parentGVR(), ParentKey: key, ParentUID: string(res.Cached.GetUID()), Selector: w.selectorFor(parentObj), RevisionGVR: env.RevisionGVR}
 			for _, f := range sim.JudgeOwnership(ctx, res.Requests, w.ownCounts) {
-				sim.R().Violation("C02", w.cfg.ID, f.Sig, f.Detail, map[string]interface{}{"sync": res.Tag, "log": sim.DescribeLog(res.Requests, false)})
+				if w.ownSig != nil {
+					f.Sig = w.ownSig(f)
+				}
+				sim.R().Violation("C02", w.reportID(), f.Sig, f.Detail, map[string]interface{}{"sync": res.Tag, "log": sim.DescribeLog(res.Requests, false)})
 			}
 		}
 	}
